@@ -550,12 +550,91 @@ def thread_workload(ctx):
                     "example_switch_sites": [f"{a[0]}:{a[1]}->{b[0]}:{b[1]}" for a, b in list(inj.sites)[:5]]})
 
 
+def include_thread_workload(ctx):
+    """Threads that open files with RELATIVE includes - one folder per thread, the same relative names, different content - while other
+    threads load a text whose includes resolve against the working directory: resolution must not go through anything process-wide.
+    Runs on every shard (short), with its own yield injection confined to mappyfile/parser.py."""
+    import shutil
+
+    import mappyfile
+
+    res = ctx.res
+    nthreads = 6
+    fbase = tempfile.mkdtemp(prefix="mf-c12t-")
+    old_cwd = os.getcwd()
+    inc_text = 'MAP\n  INCLUDE "part.inc"\n  INCLUDE "sub/more.inc"\n  include sub/../part2.inc\nEND\n'
+    for name in ["cwd"] + [f"t{i}" for i in range(nthreads)]:
+        os.makedirs(os.path.join(fbase, name, "sub"), exist_ok=True)
+        for rel, kw in (("part.inc", "NAME"), ("sub/more.inc", "SHAPEPATH"), ("part2.inc", "FONTSET")):
+            with open(os.path.join(fbase, name, rel), "w") as f:
+                f.write(f'{kw} "{rel}-of-{name}"\n')
+        with open(os.path.join(fbase, name, "root.map"), "w") as f:
+            f.write(inc_text)
+    os.chdir(os.path.join(fbase, "cwd"))
+
+    def work(i, out):
+        fn = os.path.join(fbase, f"t{i}", "root.map")
+        for rep in range(ctx.n(24, 160) // 8 + 1):
+            for via in ("open", "loads-cwd", "load"):
+                try:
+                    if via == "open":
+                        d = mappyfile.open(fn)
+                    elif via == "load":
+                        with open(fn, encoding="utf-8") as fp:
+                            d = mappyfile.load(fp)
+                    else:
+                        d = mappyfile.loads(inc_text)
+                    out.append((via, d.get("name"), d.get("shapepath"), d.get("fontset")))
+                except Exception as ex:
+                    out.append((via, "exc", type(ex).__name__, str(ex)[-60:]))
+
+    ref = []
+    for i in range(nthreads):
+        o = []
+        work(i, o)
+        ref.append(o)
+    old = sys.getswitchinterval()
+    inj = trace.YieldInjector(os.path.join(core.REPO, "mappyfile", "parser.py"), p=0.08, seed=ctx.seed * 977 + ctx.shard)
+    try:
+        sys.setswitchinterval(1e-5)
+        inj.start()
+        outs = [[] for _ in range(nthreads)]
+        barrier = threading.Barrier(nthreads)
+
+        def runner(i):
+            barrier.wait()
+            work(i, outs[i])
+
+        ths = [threading.Thread(target=runner, args=(i,)) for i in range(nthreads)]
+        for t in ths:
+            t.start()
+        for t in ths:
+            t.join(timeout=600)
+        if any(t.is_alive() for t in ths):
+            res.inconclusive_because("watchdog: include thread round did not finish within 600 s")
+        else:
+            for i, (got, want) in enumerate(zip(outs, ref)):
+                res.count("include_thread_results_compared", len(want))
+                if got != want:
+                    d = [(a, b) for a, b in zip(got, want) if a != b][:3]
+                    res.violation("concurrent-result-differs-from-sequential", {"part": "threads-relative-includes", "thread": i, "threads": nthreads}, d, None)
+    finally:
+        inj.stop()
+        sys.setswitchinterval(old)
+        if os.getcwd() != os.path.realpath(os.path.join(fbase, "cwd")) and os.getcwd() != os.path.join(fbase, "cwd"):
+            res.violation("working-directory-changed-by-concurrent-calls", {"part": "threads-relative-includes"}, os.getcwd(), os.path.join(fbase, "cwd"))
+        os.chdir(old_cwd)
+        shutil.rmtree(fbase, ignore_errors=True)
+    res.count("include_thread_switches", inj.switches)
+
+
 def run(ctx):
     tmp = tempfile.mkdtemp(prefix="mf-c12-")
     try:
         # threads first: the purity contracts wrap the public functions and would serialise fingerprinting into the threads
         if not ctx.quick or ctx.shard % 4 == 0:
             thread_workload(ctx)
+        include_thread_workload(ctx)
         reuse_workload(ctx)
         frontend_history_workload(ctx)
         purity_workload(ctx, tmp)
